@@ -6,6 +6,7 @@ import vlib, props
 mod, cfg, mode = sys.argv[1:4]
 limit = int(sys.argv[4]) if len(sys.argv) > 4 else None
 workers = int(sys.argv[5]) if len(sys.argv) > 5 else 8
+vlib.build_harness()
 nd, n, st = vlib.tlc_gen(mod, cfg, "adhoc-" + cfg, workers=workers, timeout=3000, dedup=True)
 print(st)
 if limit:
@@ -27,5 +28,5 @@ print("records", len(recs), "bad", sum(kinds.values()), dict(kinds))
 print("classes", dict(cls))
 for k, (rec, r) in first.items():
     print("==", k)
-    print(json.dumps(r, ensure_ascii=False)[:1500])
-    print(json.dumps(rec, ensure_ascii=False)[:800])
+    print(json.dumps({k: v for k, v in r.items() if k not in ("layout", "classes")}, ensure_ascii=False)[:int(os.environ.get("W", "1200"))])
+    print(json.dumps({k: v for k, v in rec.items() if k not in ("expect", "style")}, ensure_ascii=False)[:int(os.environ.get("W", "800"))])
